@@ -1,18 +1,10 @@
 import Influx.Proto
-import Influx.Model.Sched
-import Influx.Spec.C24
+import Influx.Model.SchedMacro
 
 open Influx Influx.Proto Influx.Model.Sched
 
 namespace Influx.Drv.C24
 open Influx.Spec.C24 (Op Res Obs SpinObs Ans cronOf)
-
-/-- the macro state of one case: the scheduler model plus what the environment holds -/
-structure M where
-  created : Bool := false
-  cfg : Cfg := { nworkers := 1, hash := xxhash64ofID }
-  s : State := init
-  blocked : List Nat := []
 
 def num40 (s : String) : Option Nat := do
   let n ← s.toNat?
@@ -44,80 +36,12 @@ def parseOp : List String → Option Op
     if a < 20 ∨ b < a + 400 ∨ b > 2500 then none else some (.spin r a b)
   | _ => none
 
-/-- is the operation acceptable in this state (else the harness answers `bad-op`) -/
-def admissible (created : Bool) : Op → Bool
-  | .new _ => !created
-  | .spin _ _ _ => true
-  | _ => created
-
-def fuel : Nat := 20000
-
-/-- the runs taken since the log had length `n0`, oldest first -/
-def runsSince (n0 : Nat) (s : State) : List Run :=
-  ((s.log.take (s.log.length - n0)).reverse).filterMap fun
-    | .took _ r _ => some r
-    | _ => none
-
 def insertRun (r : Run) : List Run → List Run
   | [] => [r]
   | x :: xs => if r.id < x.id then r :: x :: xs else x :: insertRun r xs
 
 /-- stable sort by id -/
 def sortRuns (rs : List Run) : List Run := rs.foldl (fun acc r => insertRun r acc) []
-
-def observe (m : M) (n0 : Nat) (res : Res) (s : State) : M × Ans :=
-  let r := settle true m.cfg m.blocked fuel s
-  ({ m with s := r.1 },
-   .logic { res := res, runs := sortRuns (runsSince n0 r.1), when_ := r.1.when_, conc := false, ckBad := false })
-
-def spinModel (repaired : Bool) (resched : Bool) (a b : Nat) : SpinObs :=
-  let cfg : Cfg := { nworkers := 2, hash := xxhash64ofID }
-  let cron := cronEvery 3600
-  let offA : Int := (a : Int) - 3600000
-  let offB : Int := (b : Int) - 3600000
-  let idB := if resched then 1 else 2
-  let s := (schedule init 1 cron offA 0).getD init
-  let s := if resched then s else release s 1
-  let s := (schedule s idB cron offB 0).getD s
-  let s := (settle repaired cfg [] 64 s).1
-  let mid := a + (b - a) / 2
-  let r := settle repaired cfg [] 64 { s with now := mid }
-  let s := r.1
-  let wname := if s.when_ = some (b : Int) then "B" else if s.when_ = some (a : Int) then "A"
-               else if s.when_ = none then "zero" else "other"
-  let pulse := match s.when_ with
-    | none => true
-    | some w => !(s.now > w + 20)
-  let n0 := s.log.length
-  let s := (settle repaired cfg [] 64 { s with now := (b : Int) + 100 }).1
-  let rs := runsSince 0 s
-  let _ := n0
-  let nB := (rs.filter fun r => r.id == idB && r.runAt == (b : Int)).length
-  { spin := r.2 == .outOfFuel, when_ := wname, pulse := pulse, runsA := rs.length - nB, runsB := nB }
-
-def stepOp (m : M) (op : Op) : M × Ans :=
-  let n0 := m.s.log.length
-  match op with
-  | .new n =>
-    let m := { m with created := true, cfg := { nworkers := n, hash := xxhash64ofID } }
-    observe m n0 .ok m.s
-  | .sched id isEvery p off last =>
-    let last' := if isEvery then alignEvery p last else last
-    match schedule m.s id (cronOf isEvery p) off last' with
-    | none => observe m n0 .err m.s
-    | some s => observe m n0 (.okAligned last') s
-  | .rel id => observe m n0 .ok (release m.s id)
-  | .adv d =>
-    -- the harness settles before moving the clock
-    let s := (settle true m.cfg m.blocked fuel m.s).1
-    observe m n0 .ok { s with now := s.now + d }
-  | .block id =>
-    let m := { m with blocked := if m.blocked.contains id then m.blocked else id :: m.blocked }
-    observe m n0 .ok m.s
-  | .unblock id =>
-    let m := { m with blocked := m.blocked.filter (· ≠ id) }
-    observe m n0 .ok m.s
-  | .spin r a b => (m, .spin (spinModel true r a b))
 
 def renderRes : Res → String
   | .ok => "ok"
@@ -128,7 +52,8 @@ def renderRun (r : Run) : String := s!"{r.id}:{1000 * r.sf}:{r.runAt}"
 
 def renderAns : Ans → String
   | .logic o =>
-    renderRes o.res ++ "|" ++ joinComma (o.runs.map renderRun) ++ "|" ++
+    -- runs grouped by task (ids ascending, order within a task kept), as the harness prints them
+    renderRes o.res ++ "|" ++ joinComma ((sortRuns o.runs).map renderRun) ++ "|" ++
       (match o.when_ with | none => "-" | some w => toString w) ++ "|c" ++ boolStr o.conc ++ "k" ++ boolStr o.ckBad
   | .spin o =>
     s!"spin={boolStr o.spin}|when={o.when_}|pulse={if o.pulse then "pass" else "fail"}|runs={o.runsA},{o.runsB}"
@@ -175,7 +100,7 @@ def step (m : M) (toks : List String) : M × String :=
   | some op =>
     if admissible m.created op then
       let r := stepOp m op
-      (r.1, renderAns r.2)
+      (r.1, renderAns r.2.1)
     else (m, "bad-op")
   | none => (m, "bad-op")
 
